@@ -19,6 +19,8 @@ pub struct GenCfg {
     pub imports: bool,
     pub noise: bool,
     pub max_items: usize,
+    /// probability weight (out of 10) that a fixture requests its own name (override pattern)
+    pub self_dep_bias: u32,
 }
 
 impl Default for GenCfg {
@@ -35,6 +37,7 @@ impl Default for GenCfg {
             imports: true,
             noise: true,
             max_items: 4,
+            self_dep_bias: 1,
         }
     }
 }
@@ -74,7 +77,14 @@ fn fixture(cfg: &GenCfg) -> impl Strategy<Value = FixtureSpec> {
         0u8..3,
         prop_oneof![8 => Just(Vec::new()), 1 => names_vec(cfg, 1)],
         prop_oneof![5 => Just(Vec::new()), 1 => names_vec(cfg, 2)],
+        weighted(vec![(10 - cfg.self_dep_bias.min(10), Just(false).boxed()), (cfg.self_dep_bias.min(10), Just(true).boxed())]),
     )
+        .prop_map(|(name, alias_fn, mut deps, scope, autouse, body, deco, usefixtures, body_uses, self_dep)| {
+            if self_dep && !deps.contains(&name) {
+                deps.insert(0, name);
+            }
+            (name, alias_fn, deps, scope, autouse, body, deco, usefixtures, body_uses)
+        })
         .prop_map(|(name, alias_fn, deps, scope, autouse, body, deco, usefixtures, body_uses)| FixtureSpec {
             name,
             alias_fn,
